@@ -156,6 +156,10 @@ class InputFileRoundTrip(Contract):
         for how in ("set_data_value", "data-assigned-back"):
             for validate in (True, False):
                 yield {"kind": "edits", "how": how, "validate": validate, "name": "edits.ui.json"}
+        for obj in (0, 1, 2):
+            for grp in (0, 1):
+                for validate in (True, False):
+                    yield {"kind": "property-groups", "object": obj, "group": grp, "validate": validate}
         # values assigned to the members of optional groups (switch itself optional or not, listed before or after its members)
         for switch_optional in (True, False):
             for switch_first in (True, False):
@@ -163,6 +167,51 @@ class InputFileRoundTrip(Contract):
                 # disabled parameters and read back as None by the format's own rule
                 for assign_switch in (True,):
                     yield {"kind": "groups", "switch_optional": switch_optional, "switch_first": switch_first, "assign_switch": assign_switch, "name": "groups v2.1.ui.json"}
+
+    def _property_groups(self, case):
+        """data forms that select a property group of their object: several objects carry groups (in any order of
+        creation); whichever object and group are chosen, the pair reads back"""
+        from geoh5py.objects import Points
+        from geoh5py.ui_json import InputFile, templates
+        from geoh5py.ui_json.constants import default_ui_json
+        from geoh5py.workspace import Workspace
+
+        d = tempfile.mkdtemp()
+        try:
+            path = os.path.join(d, "w.geoh5")
+            with Workspace.create(path) as ws:
+                objs = []
+                for k in range(3):
+                    o = Points.create(ws, vertices=np.zeros((3, 3)) + k, name=f"pts{k}")
+                    a = o.add_data({f"a{k}": {"values": np.arange(3.0)}, f"b{k}": {"values": np.arange(3.0) + 1}})
+                    o.add_data_to_group(a, f"group{k}")
+                    if k == 1:
+                        o.add_data_to_group(a[:1], "second group of the same object")
+                    objs.append(o)
+                o = objs[case["object"]]
+                pg = o.property_groups[case["group"] % len(o.property_groups)]
+                ui = dict(default_ui_json)
+                ui["geoh5"] = ws
+                ui["obj"] = templates.object_parameter(value=str(o.uid))
+                ui["grp"] = templates.data_parameter(parent="obj", value=str(pg.uid), data_group_type="Multi-element")
+                try:
+                    ifile = InputFile(ui_json=ui, validate=case["validate"])
+                    ifile.write_ui_json(name="pg.ui.json", path=d)
+                except Exception as exc:
+                    return f"a form selecting property group '{pg.name}' of '{o.name}' could not be written: {type(exc).__name__}: {exc} ({case})"
+                want = (o.uid, pg.uid)
+            try:
+                back = InputFile.read_ui_json(os.path.join(d, "pg.ui.json"), validate=case["validate"])
+                data = back.data
+                got = (getattr(data["obj"], "uid", data["obj"]), getattr(data["grp"], "uid", data["grp"]))
+                back.geoh5.close()
+            except Exception as exc:
+                return f"a form selecting property group '{pg.name}' of '{o.name}' was written but cannot be read back: {type(exc).__name__}: {exc} ({case})"
+            if got != want:
+                return f"object / property group written as {want} read back as {got} ({case})"
+            return None
+        finally:
+            shutil.rmtree(d, ignore_errors=True)
 
     def _edits(self, case):
         """values changed after the InputFile was built (set_data_value, or the data dictionary
@@ -293,6 +342,8 @@ class InputFileRoundTrip(Contract):
             return self._groups(case)
         if case.get("kind") == "edits":
             return self._edits(case)
+        if case.get("kind") == "property-groups":
+            return self._property_groups(case)
         from geoh5py.objects import Points
         from geoh5py.ui_json import InputFile, templates
         from geoh5py.ui_json.constants import default_ui_json
